@@ -16,6 +16,7 @@ CONSTANTS
     CloseReleasesBlob = TRUE
     CloseFiles = TRUE
     StampOnlyOnSuccess = TRUE
+    BlobReleasedOnCloseError = TRUE
 INIT GenInit
 NEXT GenNext
 VIEW core
